@@ -261,8 +261,8 @@ def install():
 
 def build_device(log_entries, param_entries, protocol_version, rec, log_crc=0x1A2B3C4D, param_crc=0x5E6F7081, **kw):
     svcs = {
-        sv.PORT_LINK: sv.LinkService(),
-        sv.PORT_PLATFORM: sv.PlatformService(protocol_version),
+        sv.PORT_LINK: sv.LinkService(magic=protocol_version >= 0),   # -1: no version service at all (oldest firmware)
+        sv.PORT_PLATFORM: sv.PlatformService(max(0, protocol_version)),
         sv.PORT_LOG: sv.LogService(sv.TocTable(service_entries(log_entries), log_crc)),
         sv.PORT_PARAM: sv.ParamService(sv.TocTable(service_entries(param_entries), param_crc)),
         sv.PORT_MEM: sv.MemoryService([]),
